@@ -154,8 +154,14 @@ def check(ctx, rule):
                "stored names carry the prefix: every access by the public name must add it", f.lineno)
     # file level: write() adds only metadata keys, read() goes through deserialize
     fl = s.methods("BinaryCIFFile")
-    extra = sorted({t.slice.value for st in stmts(fl["write"]) if isinstance(st, ast.Assign) for t in st.targets
-                    if isinstance(t, ast.Subscript) and isinstance(t.slice, ast.Constant) and ast.unparse(t.value) == "serialized_content"})
+    extra = {t.slice.value for st in stmts(fl["write"]) if isinstance(st, ast.Assign) for t in st.targets
+             if isinstance(t, ast.Subscript) and isinstance(t.slice, ast.Constant) and ast.unparse(t.value) == "serialized_content"}
+    # (the same keys given in a dict display around the serialised content: {**self.serialize(), "encoder": .., "version": ..})
+    for d_ in ast.walk(fl["write"]):
+        if isinstance(d_, ast.Dict) and any(k_ is None and isinstance(v_, ast.Call) and (call_name(v_) or "").endswith(".serialize")
+                                            for k_, v_ in zip(d_.keys, d_.values)):
+            extra |= {k_.value if isinstance(k_, ast.Constant) else ast.unparse(k_) for k_ in d_.keys if k_ is not None}
+    extra = sorted(extra)
     # everything that can refuse (serialisation, packing) happens before the target is opened for writing: a refused write leaves the
     # file that was there as it was
     wf_ = ctx.src(BCIF).func("BinaryCIFFile.write")
